@@ -182,7 +182,7 @@ NothingAfterInterrupt ==
 
 \* every later phase call reports that same interruption (ProcessLogging returns nothing)
 SameInterruptionReported ==
-  (st.intr # None /\ last.name \in {"PRH", "PRB", "PRSH", "PRSB"}) => last.ret = st.intr
+  (st.intr # None /\ st.engine # "Off" /\ last.name \in {"PRH", "PRB", "PRSH", "PRSB"}) => last.ret = st.intr      \* (a transaction switched off by ctl reports nothing any more)
 
 \* in DetectionOnly no call returns or records an interruption
 DetectionOnlySilent ==
